@@ -47,6 +47,7 @@ def run_models(ctx, rng, N):
     specs = Z.specs()
     names = ["CPCCA", "MCA", "CCA", "RDA", "ComplexCPCCA", "ComplexMCA", "HilbertMCA", "HilbertCPCCA", "HilbertCCA", "HilbertRDA"]
     cases_r, cases_c, meta_r, meta_c = [], [], [], []
+    scf_cases = {False: [], True: []}
     for i in range(N):
         name = names[i % len(names)]
         sp = specs[name]
@@ -209,6 +210,13 @@ def run_models(ctx, rng, N):
                     v(sig), f(S1), f(S2), G.c_scalar(tsc_m + 0j if cplx else tsc_m, cplx))
                 (cases_c if cplx else cases_r).append(txt)
                 (meta_c if cplx else meta_r).append((name, kw, k))
+                if name in ("MCA", "ComplexMCA") and len(scf_cases[cplx]) < 40:
+                    # the residual formula of squared_covariance_fraction() as the model states it (Cpcca.scf_modes), identity whitening
+                    scfv = np.asarray(m.squared_covariance_fraction().values)
+                    scf_cases[cplx].append("mkSC %d %d %d %d %s %s %s %s %s %s" % (
+                        n, q1, q2, k, f(Xw), f(Yw), f(d["components1"].transpose(m.feature_name[0], "mode").values),
+                        f(d["components2"].transpose(m.feature_name[1], "mode").values), G.c_scalar(tsc_m + 0j if cplx else tsc_m, cplx), v(scfv)))
+    ctx.extra["scf_cases"] = scf_cases
     return cases_r, cases_c, meta_r, meta_c
 
 
@@ -246,6 +254,28 @@ def run(ctx):
                 nbad += 1
                 ctx.notes.append("cross-set model/impl disagree on %s for %s%r k=%d" % (FIELD.get(fld, fld), meta[ci][0], meta[ci][1], meta[ci][2]))
         ctx.oblige("correspondence:cpcca-core (%d cases, rtol %g)" % (ncmp, RT), "correspondence", ok and nbad == 0 and ncmp > 0, "%d field disagreements" % nbad)
+        # squared covariance fractions: the source's residual formula, evaluated by the model, against the accessor
+        sc = ctx.extra.get("scf_cases", {})
+        files = []
+        for cplx, fn in ((False, "check_scfs_f64"), (True, "check_scfs_c64")):
+            if sc.get(cplx):
+                body = [C.COQ_HEADER, "From XV Require Import Base.Scalar Base.Mat Base.Instances Model.Eof Model.Cpcca Model.CpccaCase.\n",
+                        "Definition cases := [\n" + ";\n".join(sc[cplx]) + "].\n", "Eval vm_compute in map Z.of_nat (%s %s cases).\n" % (fn, C.cf(1e-7))]
+                files.append((C.write_case_file("C09", "scf_%s" % ("c" if cplx else "r"), "\n".join(body)), len(sc[cplx])))
+        if files:
+            res = C.coq_eval_files([f for f, _ in files])
+            bad, tot, ok2 = [], 0, True
+            for f, cnt in files:
+                rc, out = res[f]
+                if rc != 0:
+                    ok2 = False
+                    ctx.notes.append("scf correspondence file failed: " + out[-400:])
+                    continue
+                tot += cnt
+                bad += C.parse_int_list((C.parse_evals(out) or [""])[0])
+            ctx.traces += tot
+            ctx.oblige("correspondence:squared covariance fraction, residual formula of the source (Cpcca.scf_modes) vs squared_covariance_fraction(): %d MCA / ComplexMCA fits" % tot,
+                       "correspondence", ok2 and not bad and tot > 0, "%d disagreeing fits" % len(bad))
 
 
 def search(ctx):
